@@ -87,8 +87,10 @@ Cases ==
   \cup { [kind |-> "method", ty |-> m, trait |-> "", ts |-> TsSeq(ts), backend |-> b.name, elem |-> "SS", dir |-> "iff",
         expect |-> CASE m = "clone" -> HasClone(ts)
                      [] m \in {"reserve", "reserve_exact", "shrink_to_fit", "shrink_to"} -> b.resizable
+                     [] m \in {"t_reserve", "t_reserve_exact", "t_shrink_to_fit", "t_shrink_to"} -> b.resizable     \* the same four through the typed view
                      [] m = "with_capacity" -> b.sizeable]
-        : m \in {"clone", "reserve", "reserve_exact", "shrink_to_fit", "shrink_to", "with_capacity"},
+        : m \in {"clone", "reserve", "reserve_exact", "shrink_to_fit", "shrink_to", "with_capacity",
+                 "t_reserve", "t_reserve_exact", "t_shrink_to_fit", "t_shrink_to"},
           ts \in {{}, {"Cloneable"}, {"Send", "Sync"}, Constraints}, b \in {x \in Backends : x.name \in {"Heap", "Stack", "StackN", "Empty", "UBnoSend"}} }
   \cup { [kind |-> "feature", ty |-> b.name, trait |-> f, ts |-> <<>>, backend |-> b.name, elem |-> "SS", dir |-> "iff",
         expect |-> Available(b, f)] : b \in {x \in Backends : x.name \in {"Heap", "Stack", "StackN", "Empty"}}, f \in FeatureSets }
